@@ -210,6 +210,7 @@ def check_invalid(case, acc):
     bad = [
         dict(), dict(df=3, degree=-1), dict(df=3, degree=1.5), dict(df=2, degree=3), dict(df=3, degree=3, intercept=True), dict(df="4"), dict(df=4.5),
         dict(knots=[6.0]), dict(knots=[-1.0]), dict(knots=[1.0], lower_bound=2.0), dict(knots=[3.0], upper_bound=2.5), dict(df=4, lower_bound=3.0, upper_bound=1.0),
+        dict(df=3, lower_bound=9.0), dict(df=3, upper_bound=-2.0), dict(df=3, degree=2, intercept=True, lower_bound=6.0), dict(df=4, degree=3, upper_bound=-0.5),
         dict(df=5, knots=[1.0]), dict(df=4, knots=[1.0, 2.0, 3.0]), dict(knots=[[1.0, 2.0]]), dict(df=4, degree="3"),
     ]
     problems = []
